@@ -104,3 +104,23 @@ for k, tmid in ((1, []), (2, [900.]), (3, [700., 1100.])):
                                '%s(result.nasas[%d].a, %r) == %s(result.nasas[%d].a, %r)' % (S9, i, tmid[i], S9, i + 1, tmid[i]))
                               for i in range(k - 1)],
                      cross_check=False)
+
+# ---- Shomate ------------------------------------------------------------------------------
+from pvc import live
+UNITS_Q = ['J/mol/K', 'kcal/mol/K', 'eV/K']
+UNITS_T = sorted(live.func_literal('pmutt.constants', 'R', 'R_dict'))
+HS = 'spec.nasa.shomate_HoRT'
+SS = 'spec.nasa.shomate_SoR'
+GRIDS = [300. + 100. * k for k in range(16)]
+for zero_cp in (False, True):
+    contract(SHO + 'Shomate.from_data', P, label='zeroCp=%s' % zero_cp,
+             shapes=dict(units=UNITS_Q), shapes_thorough=dict(units=UNITS_T),
+             args=lambda units, zero_cp=zero_cp: dict(
+                 name=Const('fit'), T=NpConst(GRIDS),
+                 CpoR=(NpConst([0.] * 16) if zero_cp else RealVec(16, 2., 20.)),
+                 T_ref=Real(300., 1800.), HoRT_ref=Real(-50., 50.), SoR_ref=Real(5., 60.), units=Const(units)),
+             requires=['T_ref >= 300', 'T_ref <= 1800'],
+             ensures=[('bounds-span-the-data', 'result.T_low == 300 and result.T_high == 1800'),
+                      ('anchors-H', 'result.get_HoRT(T=T_ref) == HoRT_ref'),
+                      ('anchors-S', 'result.get_SoR(T=T_ref) == SoR_ref')],
+             cross_check=False)
